@@ -376,6 +376,7 @@ Outcome runParse(Binding &b, const std::vector<int> &codes, const Conf &cf, cons
   void *(*al)(int) = cf.freemode == 2 ? nullptr : tree_alloc;
   void (*fr)(void *) = cf.freemode == 0 ? tree_free : nullptr;
   long lib_live_before = g_lib.live_blocks;
+  long capBefore = g_lib.cap_hits;
   long savedAlt = yaep_verif.alt_limit;
   if (yaep_verif.alt_limit == 0) yaep_verif.alt_limit = ALT_LIMIT;
   long savedRec = yaep_verif.rec_limit;
@@ -383,6 +384,7 @@ Outcome runParse(Binding &b, const std::vector<int> &codes, const Conf &cf, cons
   o.rc = b.parse(cb_tok, cb_err, al, fr, &root, &amb);
   o.hook = yaep_verif;
   yaep_verif.alt_limit = savedAlt; yaep_verif.rec_limit = savedRec;
+  o.capped = o.rc == 1 /* YAEP_NO_MEMORY */ && g_lib.cap_hits > capBefore;
   if (o.hook.alt_explosion) {
     // the parse was cut short by the harness: the blocks of the unfinished tree belong to nobody; drop them here
     for (auto it = g_tree.owner.begin(); it != g_tree.owner.end();) {
